@@ -618,6 +618,39 @@ func (x *Exec) merge(states []*State) *State {
 			out.defers = s.defers
 		}
 	}
+	// lock ownership: paths that join hold the same locks - a lock held on one of them only is a lock that path took
+	// and did not give back (or gave back and the other did not): from here on the function does not know what it holds
+	if x.dry == 0 && x.contract != nil && x.contract.Opts["own"] && len(x.inRes) == 0 {
+		all := map[string]bool{}
+		for _, s := range live {
+			for k, v := range s.held {
+				if v && !strings.HasSuffix(k, "#w") {
+					all[k] = true
+				}
+			}
+		}
+		var keys []string
+		for k := range all {
+			keys = append(keys, k)
+		}
+		sort.Strings(keys)
+		for _, k := range keys {
+			for _, s := range live {
+				if s.held[k] {
+					continue
+				}
+				// some other joining path holds k: that path is the one to blame (if it is feasible at all)
+				for _, t := range live {
+					if t.held[k] {
+						x.counts["lock.join"]++
+						x.assertNamed(t, fmt.Sprintf("lock.join.%d", x.counts["lock.join"]), "lock", "false",
+							"paths that join hold the same locks ("+k+" is held on one of them only: taken and not released on that path)", x.posn(x.curPos))
+					}
+				}
+				break
+			}
+		}
+	}
 	for _, s := range live {
 		if s.held != nil {
 			if out.held == nil {
@@ -1408,6 +1441,21 @@ func fpKey(fp string) string {
 }
 
 func (x *Exec) checkInvs(st *State, lc *loopCtx, phase string) {
+	if phase == "pres" && lc.head != nil && x.dry == 0 && x.contract != nil && x.contract.Opts["own"] && len(x.inRes) == 0 {
+		// lock ownership: an iteration gives back every lock it took (the next one starts where this one started)
+		var extra []string
+		for k, v := range st.held {
+			if v && !strings.HasSuffix(k, "#w") && !lc.head.held[k] {
+				extra = append(extra, k)
+			}
+		}
+		sort.Strings(extra)
+		for _, k := range extra {
+			x.counts["lock.loop"]++
+			x.assertNamed(st, fmt.Sprintf("lock.loop.%d", x.counts["lock.loop"]), "lock", "false",
+				"every iteration releases the locks it took ("+k+" is still held when the next iteration starts)", x.posn(lc.pos))
+		}
+	}
 	if lc.spec == nil {
 		return
 	}
@@ -1489,6 +1537,7 @@ func (x *Exec) checkBreaks(brk []*State, lc *loopCtx) {
 
 func (x *Exec) assumeInvs(st *State, lc *loopCtx) {
 	if lc.spec == nil {
+		lc.head = st.clone() // (the locks held at the head are compared with those at the end of the iteration)
 		return
 	}
 	for _, inv := range lc.spec.Invariants {
